@@ -6,6 +6,8 @@ from __future__ import annotations
 
 import functools
 import inspect
+import io
+import tokenize
 
 # from inspect import
 from dataclasses import dataclass
@@ -268,11 +270,19 @@ def _get_inline_comment_at_line(code_lines: list[str], line: int) -> str:
     assert 0 <= line < len(code_lines)
     assert _contains_field_definition(code_lines[line])
     line_str = code_lines[line]
-    parts = line_str.split("#", maxsplit=1)
-    if len(parts) != 2:
+    if "#" not in line_str:
         return ""
-    comment = parts[1].strip()
-    return comment
+    # NOTE: a "#" can also be part of a string (e.g. in the default value: `color: str = "#fff"`),
+    # so look for the actual comment token of the line.
+    try:
+        for token in tokenize.generate_tokens(io.StringIO(line_str.strip() + "\n").readline):
+            if token.type == tokenize.COMMENT:
+                return token.string[1:].strip()
+        return ""
+    except (tokenize.TokenError, SyntaxError):
+        # The line isn't a complete statement (e.g. it opens a multi-line expression) and has no
+        # comment before the point where tokenizing stops: use everything after the first "#".
+        return line_str.split("#", maxsplit=1)[1].strip()
 
 
 def _get_comment_ending_at_line(code_lines: list[str], line: int) -> str:
